@@ -204,7 +204,7 @@ func H_C01_KV() {
 					kinds = []int{5, 2, 4}
 				}
 			}
-			ws[i] = genKVOp(idx == nops-1 && nops > 1, idx%2, vParam("maxkey"), kinds)
+			ws[i] = genKVOp(idx == nops-1 && nops > 1 && mode != HintBPTSparseIdxMode, idx%2, vParam("maxkey"), kinds)
 		}
 		err := db.Update(func(tx *Tx) error {
 			for i := range ws {
